@@ -23,7 +23,7 @@ func init() { register("C07", checkC07) }
 // Reviewed escapes the order lattice cannot decide, keyed by range › what escapes, one line of
 // reason each. Anything else escaping from the same loop is still reported.
 var c07Reviewed = map[string]string{
-	"paramMappings › range params › loop-carried seenIDs[strings.ToLower(swag.ToGoName(p.Name))]":    "name deconfliction: when a Go name is taken, the parameter that holds it and the one that wants it are BOTH renamed after their own location (checked by C07.R1.symmetric-rename), so the outcome is the same whichever came first",
+	"paramMappings › range params › loop-carried local map[string]interface{}":                       "name deconfliction: when a Go name is taken, the parameter that holds it and the one that wants it are BOTH renamed after their own location (checked by C07.R1.symmetric-rename), so the outcome is the same whichever came first",
 	"scanCtx.FindModel › range s.app.Models › first-match":                                           "first match on (package path, type name), which identifies at most one declaration in the index: the result does not depend on the visiting order",
 	"GenerateDefinition › range specDoc.Spec().Definitions › modelNames":                             "collects the names of all definitions; the following loop generates one file per name (paths injective in the name), each generation independent of the others",
 	"schemaGenContext.buildProperties › range sg.Schema.Properties › sg.MergeResult→sg.Dependencies": "GenSchema.Dependencies → GenDefinition.DependsOn is read by no template (it shows only in the --dump-data debug dump)",
@@ -936,7 +936,8 @@ func checkTieBreaks(c *Ctx, rule, key string, pk *packages.Package, body *ast.Bl
 		}
 		n++
 		xs, ys := goan.ExprString(be.X), goan.ExprString(be.Y)
-		if finalKey == "" || strings.Contains(xs, finalKey) {
+		// a local holding the key stands for the expression it was assigned from
+		if finalKey == "" || strings.Contains(xs, finalKey) || strings.Contains(goan.ExprString(goan.ResolveLocal(info, body, be.X)), finalKey) {
 			return // the last key of the list: nothing is left to break a tie with
 		}
 		guarded := false
